@@ -35,3 +35,44 @@ func H04() {
 		check(e == nil || n == 1, "C04: every node is reachable by exactly one path")
 	}
 }
+
+// H04rev: two revisions of one module are both loaded modules: each gets its implicit cases, each
+// one's augments are applied exactly once, and the walker holds on both trees. The older and the
+// newer revision each hold a choice with a shorthand member and an augment of the base module;
+// load order symbolic.
+func H04rev() {
+	b := `module b { namespace "urn:b"; prefix b; container c { leaf l { type string; } } }`
+	a19 := `module a { namespace "urn:a"; prefix a; revision 2019-01-01; import b { prefix b; } container own { choice ch { leaf s19 { type string; } } } augment /b:c { leaf x19 { type string; } choice k19 { leaf m19 { type int8; } } } }`
+	a20 := `module a { namespace "urn:a"; prefix a; revision 2020-06-15; import b { prefix b; } container own { choice ch { leaf s20 { type string; } case e { leaf t20 { type string; } } } } augment /b:c { leaf x20 { type string; } } }`
+	texts := []string{b, a19, a20}
+	orders := [][]int{{0, 1, 2}, {0, 2, 1}, {1, 2, 0}, {2, 1, 0}, {1, 0, 2}, {2, 0, 1}}
+	o := orders[symChoice(len(orders))]
+	hNoFiles()
+	ms := NewModules()
+	for _, k := range o {
+		check(ms.Parse(texts[k], "f"+string([]byte{'0' + byte(k)})+".yang") == nil, "the texts load")
+	}
+	errs := ms.Process()
+	check(len(errs) == 0, "the set processes")
+	if len(errs) > 0 {
+		return
+	}
+	reach("processed")
+	hWF(ms)
+	c := ToEntry(ms.Modules["b"]).Dir["c"]
+	check(c.Dir["x19"] != nil && c.Dir["x20"] != nil && c.Dir["k19"] != nil && len(c.Dir) == 4, "C07: the augments of every loaded module - both revisions - are applied exactly once")
+	if k := c.Dir["k19"]; k != nil {
+		check(k.Dir["m19"] != nil && k.Dir["m19"].Kind == CaseEntry && k.Dir["m19"].Dir["m19"] != nil, "C04: the shorthand member an augment adds to a choice gets its implicit case")
+	}
+	for _, rev := range []string{"a@2019-01-01", "a@2020-06-15"} {
+		m := ms.Modules[rev]
+		check(m != nil, "both revisions are loaded")
+		if m == nil {
+			continue
+		}
+		ch := ToEntry(m).Dir["own"].Dir["ch"]
+		for _, n := range hSortedDir(ch.Dir) {
+			check(ch.Dir[n].Kind == CaseEntry, "C04: every child of a choice is a case, in every loaded revision")
+		}
+	}
+}
